@@ -266,7 +266,15 @@ func decodeAndJudge(c *corr.Ctx, s *cu.Spec, inst *cu.Instance, cs *corr.Case, o
 		}
 		if hits != 1 {
 			key := "resync"
-			if hits == 0 && log != nil && log.codec == "h264" && firstPos[fi] < len(log.stale) && log.stale[firstPos[fi]] {
+			later := false
+			for j := limit + 1; j < len(stream); j++ {
+				if outs[j] != nil && frameEq(fs[fi], outs[j]) {
+					later = true
+				}
+			}
+			nextIntact := fi+1 < len(fs) && intact[fi+1]
+			// known lag = delayed by one access unit, not lost: see lagShape
+			if hits == 0 && (later || !nextIntact) && log != nil && log.codec == "h264" && firstPos[fi] < len(log.stale) && log.stale[firstPos[fi]] {
 				key = "resync-lag"
 				c.Dist("h264.c07-known-lag")
 			}
